@@ -219,16 +219,20 @@ class ffunc_count(ffunc):
         if self.weights is None:
             return (counts,)
         else:
-            vcount = numpy.sum(self.validity, axis=0)
+            if self.validity.shape:
+                numrows = len(self.validity)
+                vcount = numpy.sum(self.validity, axis=0)
+            else:
+                # Scalar weight: it applies to (is valid for) all N rows or none.
+                numrows = N
+                vcount = N if self.validity else 0
             valid_counts = numpy.zeros(cube.working_shape, dtype=int)
             valid_counts[cube.corner] = vcount
             if self.ignore_missing:
                 return counts, valid_counts
             else:
                 missing_counts = numpy.zeros(cube.working_shape, dtype=int)
-                missing_counts[cube.corner] = (
-                    len(self.validity) if self.validity.shape else 1
-                ) - vcount
+                missing_counts[cube.corner] = numrows - vcount
                 return counts, valid_counts, missing_counts
 
     def fill_func(self, regions):
